@@ -91,6 +91,14 @@ pub fn decoder_families<V: Fv, W: Fv>(seed: u64, thorough: bool, out: &mut Shard
         ("sig", V::sig_to_bytes(&sig), V::SIG_LEN),
     ];
     let other_len = [("pk", W::PK_LEN), ("sk", W::SK_LEN), ("sig", W::SIG_LEN)];
+    // genuine objects of the OTHER variant handed to this variant's decoders (complete and well-formed for the other parameter set)
+    {
+        let (wsk, wpk) = W::keygen(rng.gen());
+        let wsig = W::sign(b"decode", &wsk);
+        out.emit(decode_event::<V>("pk", &W::pk_to_bytes(&wpk), "other-variant-genuine"));
+        out.emit(decode_event::<V>("sk", &W::sk_to_bytes(&wsk), "other-variant-genuine"));
+        out.emit(decode_event::<V>("sig", &W::sig_to_bytes(&wsig), "other-variant-genuine"));
+    }
     let n = V::N;
     for (ti, (ty, hb, len)) in honest.iter().enumerate() {
         out.emit(decode_event::<V>(ty, hb, "honest"));
